@@ -6,6 +6,8 @@ import Nstd.Json.LemmasTokInv
 import Nstd.Json.LemmasBytes
 import Nstd.Json.LemmasRfcOut
 import Nstd.Json.LemmasNum
+import Nstd.Json.LemmasSur
+import Nstd.Json.LemmasRfcNot
 /-
   Property C15 (JSON: total, safe, round trip; stripComments removes exactly the comments).
   Only the property theorems and their non-vacuity examples live here.
@@ -164,6 +166,95 @@ theorem lone_high_surrogate_rejected (f line : Nat) (acc : List Byte) (a b c d x
     (hw : isHighSur (((hexVal a * 16 + hexVal b) * 16 + hexVal c) * 16 + hexVal d) = true) (hx : x ≠ 92) :
     readStr (f + 1) line acc (92 :: 117 :: a :: b :: c :: d :: x :: X) = .fail line (x :: X) :=
   lone_high_rejected f line acc a b c d x X ha hb hc hd hw hx
+
+/-! ### the round trip a second time, THROUGH the RFC semantics
+
+  `roundtrip` above is proved on the parser model positioned inside the serialiser's text.  The three
+  theorems below prove it again without that argument: (1) the serialiser's text is a JSON-text with the
+  syntax tree `treeOf v` (`toString_is_rfc8259`), (2) the MEANING of that tree is `norm v` — a statement
+  about the two specifications only, the parser does not occur in it —, (3) the parser reads every
+  JSON-text to its meaning (`accepts_rfc`). -/
+
+/-- the items `appendEscapedString` writes decode (section 7) to the string, for EVERY byte string -/
+theorem serialised_string_decodes (s : List Byte) : decodeItems (s.map itemOf) = some s :=
+  decodeItems_itemOf s
+
+/-- the RFC meaning of the text `toString` writes is the value (an int64 that fits 32 bits ↦ int) -/
+theorem toString_rfc_meaning (v : Val) (h : wf v) : interp (treeOf v) = some (norm v) :=
+  interp_treeOf v h
+
+/-- serialising then parsing is the identity, composed from (1), (2), (3) -/
+theorem roundtrip_through_rfc (v : Val) (h : wf v) : parse (toString v ++ [0]) = .ok (norm v) :=
+  accepts_rfc _ _ _ (toString_is_rfc8259 v h) (toString_rfc_meaning v h)
+
+/-! ### the failing side of `\u` -/
+
+/-- high surrogate escape followed by a `\u` escape that is not a low surrogate: `pos.pos -= 6`, the syntax
+    error is reported at the backslash of the SECOND escape -/
+theorem high_surrogate_then_non_low_rejected (f line : Nat) (acc : List Byte) (a b c d a2 b2 c2 d2 : Byte) (X : List Byte)
+    (ha : Rfc.isHex a) (hb : Rfc.isHex b) (hc : Rfc.isHex c) (hd : Rfc.isHex d)
+    (ha2 : Rfc.isHex a2) (hb2 : Rfc.isHex b2) (hc2 : Rfc.isHex c2) (hd2 : Rfc.isHex d2)
+    (hw : isHighSur (((hexVal a * 16 + hexVal b) * 16 + hexVal c) * 16 + hexVal d) = true)
+    (hw2 : isLowSur (((hexVal a2 * 16 + hexVal b2) * 16 + hexVal c2) * 16 + hexVal d2) = false) :
+    readStr (f + 1) line acc (92 :: 117 :: a :: b :: c :: d :: 92 :: 117 :: a2 :: b2 :: c2 :: d2 :: X)
+      = .fail line (92 :: 117 :: a2 :: b2 :: c2 :: d2 :: X) :=
+  high_then_nonlow f line acc a b c d a2 b2 c2 d2 X ha hb hc hd ha2 hb2 hc2 hd2 hw hw2
+
+/-- the converse of `string_token_decodes`: a string token of the grammar whose items have NO meaning (a high
+    surrogate escape followed by the closing quote, a raw character, a two-character escape or a `\u`
+    escape that is not a low surrogate) is a syntax error on its line, wherever it stands.  So on RFC
+    strings the tokenizer succeeds exactly when `decodeItems` is defined, with that value. -/
+theorem string_without_meaning_rejected (t : List Byte) (is : List Rfc.Item) (h : Rfc.Str t is)
+    (hd : decodeItems is = none) (line : Nat) (rest : List Byte) : ∃ p, readToken line (t ++ rest) = .fail line p :=
+  tok_rfc_str_none h hd line rest
+
+example : decodeItems [.unit 0xD800, .unit 0x41] = none := by decide
+example : decodeItems [.unit 0xD800] = none := by decide
+
+/-! ### nstd accepts a strict SUPERSET of the meaningful RFC texts: the relaxations are outside the grammar
+
+  `Rfc.textNec` (LemmasRfcNot.lean, imports only the grammar) is a computable necessary condition of
+  `Rfc.Text` (strict number syntax, string bytes ≥ 0x20 and valid escape letters, first/last
+  non-white-space character of the inside of arrays and objects, nothing but white space around the
+  value), proved by induction over the grammar; each text below fails it. -/
+
+/-- every JSON-text of the grammar passes the check -/
+theorem rfc_necessary (t : List Byte) (tr : Rfc.Tree) (h : Rfc.Text t tr) : Rfc.textNec t = true :=
+  Rfc.text_nec h
+
+theorem not_rfc {t : List Byte} (h : Rfc.textNec t = false) : ¬ Rfc.IsText t := by
+  intro ⟨tr, ht⟩
+  rw [Rfc.text_nec ht] at h
+  cases h
+
+/-- each relaxation: accepted by nstd (with this value), NOT a JSON-text of RFC 8259 -/
+theorem accepted_beyond_rfc :
+    -- leading zeros `007`
+    (parse [48, 48, 55, 0] = .ok (.int 7) ∧ ¬ Rfc.IsText [48, 48, 55]) ∧
+    -- a lone minus `-`, `1-2`, `1.2.3`
+    (parse [45, 0] = .ok (.int 0) ∧ ¬ Rfc.IsText [45]) ∧
+    (parse [49, 45, 50, 0] = .ok (.int 1) ∧ ¬ Rfc.IsText [49, 45, 50]) ∧
+    (parse [49, 46, 50, 46, 51, 0] = .ok (.dbl [49, 46, 50, 46, 51]) ∧ ¬ Rfc.IsText [49, 46, 50, 46, 51]) ∧
+    -- trailing commas `[1,]`, `{"a":1,}`
+    (parse [91, 49, 44, 93, 0] = .ok (.list [.int 1]) ∧ ¬ Rfc.IsText [91, 49, 44, 93]) ∧
+    (parse [123, 34, 97, 34, 58, 49, 44, 125, 0] = .ok (.map [([97], .int 1)]) ∧
+      ¬ Rfc.IsText [123, 34, 97, 34, 58, 49, 44, 125]) ∧
+    -- a raw line feed inside a string, an unknown escape `"\x"`
+    (parse [34, 97, 10, 98, 34, 0] = .ok (.str [97, 10, 98]) ∧ ¬ Rfc.IsText [34, 97, 10, 98, 34]) ∧
+    (parse [34, 92, 120, 34, 0] = .ok (.str [92, 120]) ∧ ¬ Rfc.IsText [34, 92, 120, 34]) ∧
+    -- vertical tab / form feed as white space
+    (parse [11, 12, 49, 0] = .ok (.int 1) ∧ ¬ Rfc.IsText [11, 12, 49]) ∧
+    -- text behind the value: `1 2`, `[] ]`
+    (parse [49, 32, 50, 0] = .ok (.int 1) ∧ ¬ Rfc.IsText [49, 32, 50]) ∧
+    (parse [91, 93, 32, 93, 0] = .ok (.list []) ∧ ¬ Rfc.IsText [91, 93, 32, 93]) := by
+  refine ⟨⟨rfl, not_rfc (by decide)⟩, ⟨rfl, not_rfc (by decide)⟩, ⟨rfl, not_rfc (by decide)⟩, ⟨rfl, not_rfc (by decide)⟩,
+    ⟨rfl, not_rfc (by decide)⟩, ⟨rfl, not_rfc (by decide)⟩, ⟨rfl, not_rfc (by decide)⟩, ⟨rfl, not_rfc (by decide)⟩,
+    ⟨rfl, not_rfc (by decide)⟩, ⟨rfl, not_rfc (by decide)⟩, ⟨rfl, not_rfc (by decide)⟩⟩
+
+-- the check is not vacuous: it passes RFC texts (`1e5`, and a nested document with white space)
+example : Rfc.textNec [49, 101, 53] = true := by decide
+example : Rfc.textNec [32, 91, 49, 44, 32, 123, 34, 97, 92, 117, 48, 48, 101, 57, 34, 58, 32, 110, 117, 108, 108, 125, 93, 10]
+    = true := by decide
 
 /-! ### numbers: token, kind and value (all tokens, not only RFC numbers) -/
 
